@@ -42,7 +42,7 @@ def programs(length, tier):
     # thorough: the full token alphabet up to length 4, the reduced one at length 5
     reduced = tier == 'quick' or length >= 5
     free = ['U', 'N'] if reduced else ['U', 'V', 'N']
-    fixed = ['Ff', 'Fz'] if reduced else ['Fi', 'Ff', 'Fn', 'Fz', 'Fz0']
+    fixed = ['Ff'] if reduced else ['Fi', 'Ff', 'Fn', 'Fz', 'Fz0']
 
     def rec(i, prog):
         if i == length:
@@ -50,7 +50,7 @@ def programs(length, tier):
             return
         toks = list(free) + list(fixed) + [('L', j) for j in range(i)]
         if reduced and i == 1:
-            toks = toks + ['Fi', 'Fn', 'Fz0', 'Fnz']  # every fixed-number type appears somewhere
+            toks = toks + ['Fi', 'Fn', 'Fz', 'Fz0', 'Fnz']  # every fixed-number type appears somewhere
         for km in ('k', 'a'):
             for t in toks:
                 yield from rec(i + 1, prog + [(km, t)])
